@@ -96,7 +96,7 @@ func main() {
 	if n == 0 {
 		n = 400
 		if run.Tier == "thorough" {
-			n = 15000
+			n = 8000
 		}
 	}
 	// small logs: every start offset x fetch boundary after every unit (1 unit per response) and larger responses
